@@ -189,6 +189,13 @@ def h_keyed(P, S):
         return S.fail("iv-shared-between-two-setups")
     if P.get("twin"):
         return False
+    # the two indexes share no ciphertext-bearing entry (the same statement the native replay makes)
+    if scheme != "CGKO06.SSE2":
+        k1, k2 = set(_table_keys(e1)), set(_table_keys(e2))
+        c1 = {x for x in _leaves(list(_members(e1).values()), []) if isinstance(x, bytes) and len(x) >= 32} - k1
+        c2 = {x for x in _leaves(list(_members(e2).values()), []) if isinstance(x, bytes) and len(x) >= 32} - k2
+        if c1 & c2:
+            return S.fail("ciphertexts-of-two-setups-not-disjoint")
     # every ciphertext the ideal cipher produced sits in the index right after its IV
     blob1 = b"|".join(x for x in _leaves(list(_members(e1).values()), []) if isinstance(x, bytes))
     stored = 0
